@@ -392,12 +392,15 @@ def canon_model(m):
 # ------------------------------------------------------------------------------
 # property monitors on the implementation's observations
 #
-def fits_one_node(script, r):
+def fits_one_node(script, r, ignore_tag=False):
     """independent of the code under test: a plain request (cores, lfs, mem only - no GPUs, no ranks-per-node figure,
     no tags, no placement of the application's own) fits the idle pilot if ONE node has the free cores, the lfs and the
     mem for all its ranks.  (Sufficient, not necessary: requests that need several nodes are judged by the real routine.)"""
     if not script['cfg'].get('scattered', True): return False
-    if r['gpr'] or r['rpn'] or r['colo'] is not None or r['excl'] or r.get('app') is not None: return False
+    # (ignore_tag: a colocate tag that no earlier task carried confines the task to nothing yet; `exclusive` prefers nodes no
+    #  tag has claimed and falls back to sharing when there is none)
+    if r['gpr'] or r['rpn'] or r.get('app') is not None: return False
+    if (r['colo'] is not None or r['excl']) and not ignore_tag: return False
     if r['ranks'] < 1 or r['cpr'] < 1: return False
     for n in script['nodes']:
         k = sum(1 for c in n['cores'] if c == 0) // r['cpr']
@@ -517,6 +520,11 @@ def monitor(rp, script, out, tasks, crash, props):
                 uniform = len(set((tuple(n['cores']), tuple(n['gpus']), n['lfs'], n['mem']) for n in script['nodes'])) == 1
                 if reqs[uid]['colo'] is None and uniform and fits_idle(rp, script, reqs[uid]):
                     viol.append(('C04', tag + 'fitting-task-failed-for-resources', 'task %d fits the idle pilot' % uid))
+                elif reqs[uid]['colo'] is not None and reqs[uid]['colo'] not in colo_hist and uniform and not has_app \
+                     and fits_one_node(script, reqs[uid], ignore_tag=True):
+                    viol.append(('C04', tag + 'fitting-task-with-a-new-tag-failed-for-resources',
+                                 'task %d carries a colocate tag no earlier task had (exclusive: %s) and fits one node of the idle pilot'
+                                 % (uid, reqs[uid]['excl'])))
         # releases of this iteration (they happen at its end)
         for msg in it['unsched']:
             for uid in msg:
